@@ -1232,7 +1232,38 @@ def run_c19(ctx) -> Corr:
                 break
         corr.case(("pair", a, bver, j), True, {"older": a, "newer": bver, "ops": len(ha.ops)} if j % 97 == 0 else None)
         corr.count(f"pair:{a}->{bver}")
-    # the stated exception: heartbeat response marks sleeping and releases in 2.0/2.1, not in 2.2
+    # the stated exception, and nothing more than it: with heartbeat responses in the history (from known and
+    # unknown nodes, valid and invalid payloads) 2.0/2.1 and 2.2 may differ in the sleeping flag only.  Nothing is
+    # ever held for a node here (no send calls, nobody asleep at the start), so there is nothing to release and
+    # outcomes, writes, buffers and the rest of the registry must be identical.
+    hb_hists, hb_meta = [], []
+    for a in ("2.0", "2.1"):
+        for i in range(n):
+            base = older_types_history(rng, a, False, avoid_hb=False, length=rng.randint(5, 30))
+            pre = [p[:9] + (False,) if p[0] == "node" else p for p in base.preload]
+            ops = [op for op in base.ops if op[0] == "recv"]
+            for k in range(rng.randint(2, 6)):      # make sure the heartbeat responses are there
+                node = rng.choice((1, 2, 3, 200))
+                ops.insert(rng.randint(0, len(ops)), ("recv", f"{node};255;3;0;22;{rng.choice(gw.HEARTBEAT_PAYLOADS + ['5', 'x', ''])}", (), gw.DEFAULT_TIME))
+            for v in (a, "2.2"):
+                hb_hists.append(Hist(v, base.metric, pre, ops))
+            hb_meta.append(a)
+    hb_impl = run_both(hb_hists, corr, ctx, "full", "full view (heartbeat exception)")
+    sleeping_only = lambda nodes: re.sub(r":([01]):([01]):\[", r":\1:[", nodes)  # noqa: E731
+    for j, a in enumerate(hb_meta):
+        ha, ia, ib = hb_hists[2 * j], hb_impl[2 * j], hb_impl[2 * j + 1]
+        for i in range(len(ha.ops) + 1):
+            oa, ob = ia[i], ib[i]
+            sa, sb = split_state(oa["state"]), split_state(ob["state"])
+            va = (oa["out"], oa["writes"], sleeping_only(sa["nodes"]), sa["ibuf"], sa["sbuf"])
+            vb = (ob["out"], ob["writes"], sleeping_only(sb["nodes"]), sb["ibuf"], sb["sbuf"])
+            if va != vb:
+                corr.violate("heartbeat responses: 2.2 differs from the older version in more than the sleeping flag",
+                             {"older": a, "newer": "2.2", "history": Hist(a, ha.metric, ha.preload, ha.ops[:i]).to_json(),
+                              "older_obs": [str(x)[:300] for x in va], "newer_obs": [str(x)[:300] for x in vb]})
+                break
+        corr.case(("hb", a, j), True, None)
+        corr.count(f"pair:{a}->2.2:heartbeat-exception")
     for v, sleeps in (("2.0", True), ("2.1", True), ("2.2", False)):
         h = Hist(v, True, [("node", 1, 17, "2.0", "", "", 0, 0, False, False)], [("recv", "1;255;3;0;22;9", (), gw.DEFAULT_TIME)])
         o = gw.run_impl(h)[1]
